@@ -327,7 +327,9 @@ func TestC15Linearizable(t *testing.T) {
 		} else {
 			col.Label("api:direct")
 		}
-		col.Case(overlap, hx.JSON(desc), func() any { return map[string]any{"cap": capacity, "goroutines": ng, "rounds": rounds, "via_handler": viaHandler, "operations": len(history)} })
+		col.Case(overlap, hx.JSON(desc), func() any {
+			return map[string]any{"cap": capacity, "goroutines": ng, "rounds": rounds, "via_handler": viaHandler, "operations": len(history)}
+		})
 	})
 }
 
@@ -448,5 +450,163 @@ func TestC15Stress(t *testing.T) {
 		col.Label("mode:stress")
 		col.Add("stress_iterations", int64(iters*nw))
 		col.Case(versionsSeen.Load() >= 1, hx.JSON(desc), func() any { return desc })
+	})
+}
+
+// TestC15ReadYourWrites: one writer of fresh regular events (increasing
+// created_at, no other writers) checks after every Add that a timeline query
+// started afterwards shows that event as the newest one, while reader goroutines
+// keep issuing timeline and index queries. Real-time order => the Add precedes
+// the query in every linearization.
+func TestC15ReadYourWrites(t *testing.T) {
+	col := ev.For("C15").SetRule(c15Rule)
+	rapid.Check(t, func(t *rapid.T) {
+		capacity := rapid.IntRange(3, 300).Draw(t, "cap")
+		nr := rapid.IntRange(1, 6).Draw(t, "readers")
+		iters := rapid.IntRange(300, 1500).Draw(t, "iterations")
+		viaHandler := rapid.Bool().Draw(t, "via_handler")
+		desc := map[string]any{"cap": capacity, "readers": nr, "iterations": iters, "via_handler": viaHandler, "mode": "read-your-writes"}
+		cache := mocrelay.NewEventCache(capacity)
+		handler := mocrelay.NewCacheHandler(capacity)
+		mk := func() (cacheAPI, func()) {
+			if viaHandler {
+				s, cancel := newSessionCache(handler)
+				return s, cancel
+			}
+			return directCache{cache}, func() {}
+		}
+		var stop atomic.Bool
+		var wg sync.WaitGroup
+		readerFilters := [][]*mocrelay.ReqFilter{{{}}, {{Limit: gen.Ptr(int64(3))}}, {{Until: gen.Ptr(int64(1 << 40))}}, {{Kinds: []int64{1}, Limit: gen.Ptr(int64(2))}}, {{Limit: gen.Ptr(int64(1))}}, {{Since: gen.Ptr(int64(5))}}}
+		var failMu sync.Mutex
+		failure := ""
+		for r := 0; r < nr; r++ {
+			wg.Add(1)
+			go func(r int) {
+				defer wg.Done()
+				api, done := mk()
+				defer done()
+				for i := 0; !stop.Load(); i++ {
+					res := api.find(readerFilters[(r+i)%len(readerFilters)])
+					if why := invariantsOf(res, capacity); why != "" {
+						failMu.Lock()
+						failure = why
+						failMu.Unlock()
+						return
+					}
+				}
+			}(r)
+		}
+		w, wdone := mk()
+		for i := 0; i < iters && failure == ""; i++ {
+			e := &mocrelay.Event{Pubkey: gen.Keys[0].Pub, Kind: 1, CreatedAt: int64(1000 + i), Tags: []mocrelay.Tag{}, Content: fmt.Sprint("w", i)}
+			gen.Seal(e)
+			if !w.add(e) {
+				failMu.Lock()
+				failure = fmt.Sprintf("Add of fresh event #%d was not reported as new", i)
+				failMu.Unlock()
+				break
+			}
+			q := []*mocrelay.ReqFilter{{Limit: gen.Ptr(int64(1))}}
+			if i%3 == 1 {
+				q = []*mocrelay.ReqFilter{{}}
+			}
+			res := w.find(q)
+			if len(res) == 0 || res[0].ID != e.ID {
+				got := "nothing"
+				if len(res) > 0 {
+					got = fmt.Sprintf("%s (created_at %d)", gen.Short(res[0].ID), res[0].CreatedAt)
+				}
+				failMu.Lock()
+				failure = fmt.Sprintf("after Add(#%d, created_at %d) returned, a query %s started afterwards shows %s as the newest event", i, e.CreatedAt, hx.JSON(gen.BriefFilters(q)), got)
+				failMu.Unlock()
+				break
+			}
+		}
+		stop.Store(true)
+		wdone()
+		wg.Wait()
+		if failure != "" {
+			hx.Fail(t, ev.Failure{Property: "C15", Signature: "not-linearizable", Clause: "every result is one that some sequential ordering consistent with real time could have produced (a completed insertion is visible to a later query)", Case: desc, Observed: failure})
+		}
+		col.Label("mode:read-your-writes")
+		col.Case(true, hx.JSON(desc), func() any { return desc })
+	})
+}
+
+// TestC15HandlerSessionsLargeAnswers: concurrent CacheHandler sessions with large
+// REQ answers read at different speeds; every answer must consist of retained
+// events matching that session's filters (no cross-talk between sessions).
+func TestC15HandlerSessionsLargeAnswers(t *testing.T) {
+	col := ev.For("C15").SetRule(c15Rule)
+	rapid.Check(t, func(t *rapid.T) {
+		capacity := rapid.IntRange(80, 400).Draw(t, "cap")
+		ns := rapid.IntRange(2, 5).Draw(t, "sessions")
+		rounds := rapid.IntRange(20, 80).Draw(t, "rounds")
+		desc := map[string]any{"cap": capacity, "sessions": ns, "rounds": rounds, "mode": "handler sessions with large answers"}
+		handler := mocrelay.NewCacheHandler(capacity)
+		authors := gen.Pubkeys(3)
+		// pre-fill through one session
+		pre, cancelPre := newSessionCache(handler)
+		for i := 0; i < capacity; i++ {
+			e := &mocrelay.Event{Pubkey: authors[i%3], Kind: 1, CreatedAt: int64(1000 + i), Tags: []mocrelay.Tag{}, Content: fmt.Sprint("pre", i)}
+			gen.Seal(e)
+			pre.add(e)
+		}
+		cancelPre()
+		var wg sync.WaitGroup
+		fails := make([]string, ns)
+		for s := 0; s < ns; s++ {
+			wg.Add(1)
+			go func(s int) {
+				defer wg.Done()
+				ctx, cancel := context.WithCancel(context.Background())
+				defer cancel()
+				recv := make(chan mocrelay.ClientMsg)
+				send := make(chan mocrelay.ServerMsg)
+				go handler.ServeNostr(ctx, send, recv)
+				me := authors[s%3]
+				fs := []*mocrelay.ReqFilter{{Authors: []string{me}}}
+				for r := 0; r < rounds; r++ {
+					recv <- &mocrelay.ClientReqMsg{SubscriptionID: "q", ReqFilters: fs}
+					n := 0
+					for {
+						m := <-send
+						if em, is := m.(*mocrelay.ServerEventMsg); is {
+							n++
+							if em.Event.Pubkey != me || em.SubscriptionID != "q" {
+								fails[s] = fmt.Sprintf("session %d asked for author %s and received event %s of author %s", s, gen.Short(me), gen.Short(em.Event.ID), gen.Short(em.Event.Pubkey))
+								return
+							}
+							if s%2 == 1 && n%16 == 0 {
+								runtime.Gosched() // a slower reader
+							}
+							continue
+						}
+						if _, is := m.(*mocrelay.ServerEOSEMsg); is {
+							break
+						}
+					}
+					if n == 0 || n > capacity {
+						fails[s] = fmt.Sprintf("session %d: %d events for its author (capacity %d, a third of the store belongs to it)", s, n, capacity)
+						return
+					}
+					if r%5 == 4 {
+						e := &mocrelay.Event{Pubkey: me, Kind: 1, CreatedAt: int64(5000 + r*10 + s), Tags: []mocrelay.Tag{}, Content: fmt.Sprint("s", s, "r", r)}
+						gen.Seal(e)
+						recv <- &mocrelay.ClientEventMsg{Event: e}
+						<-send
+					}
+				}
+			}(s)
+		}
+		wg.Wait()
+		for _, f := range fails {
+			if f != "" {
+				hx.Fail(t, ev.Failure{Property: "C15", Signature: "cross-session-answer", Clause: "every result is one that some sequential ordering of the operations could have produced (a session's REQ answer contains only events matching its own filters)", Case: desc, Observed: f})
+			}
+		}
+		col.Label("mode:handler-large-answers")
+		col.Case(true, hx.JSON(desc), func() any { return desc })
 	})
 }
